@@ -118,7 +118,8 @@ Definition ids (h : heap) : list nat := map fst (h_live h).
 Record heap_ok (h : heap) : Prop := {
   hk_bad : h_bad h = 0;
   hk_cnt : h_allocs h - h_frees h = zlen (h_live h);
-  hk_lt : forall b z, In (b, z) (h_live h) -> (b < h_next h)%nat
+  hk_lt : forall b z, In (b, z) (h_live h) -> (b < h_next h)%nat;
+  hk_nd : NoDup (ids h)
 }.
 
 Lemma hmem_In b l z : In (b, z) l -> hmem b l = true.
@@ -149,20 +150,45 @@ Proof.
   destruct (Nat.eqb_spec b x); cbn [orb length]; [lia|]. intros H. specialize (IH H). lia.
 Qed.
 
+Lemma hrem_ids_In b l x : In x (map fst (hrem b l)) -> In x (map fst l).
+Proof.
+  rewrite !in_map_iff. intros [[y z] [E A]]. exists (y, z). split; [exact E|exact (hrem_In_inv _ _ _ _ A)].
+Qed.
+
+Lemma hrem_nodup b l : NoDup (map fst l) -> NoDup (map fst (hrem b l)).
+Proof.
+  induction l as [|[x y] l IH]; cbn [hrem map fst]; [auto|]. intros H. inversion H as [|? ? N D]; subst.
+  destruct (Nat.eqb b x); [exact D|]. cbn [map fst]. constructor; [|exact (IH D)].
+  intros A. apply N. exact (hrem_ids_In _ _ _ A).
+Qed.
+
+Lemma hrem_gone b l : NoDup (map fst l) -> hmem b (hrem b l) = false.
+Proof.
+  induction l as [|[x y] l IH]; cbn [hrem map fst hmem]; [auto|]. intros H. inversion H as [|? ? N D]; subst.
+  destruct (Nat.eqb_spec b x) as [E|E].
+  - subst. destruct (hmem x l) eqn:M; [|reflexivity]. exfalso. apply N.
+    clear -M. induction l as [|[a c] l IH]; cbn [hmem map fst In] in *; [discriminate|].
+    destruct (Nat.eqb_spec x a); [left; congruence|right; apply IH; exact M].
+  - cbn [hmem]. destruct (Nat.eqb_spec b x); [congruence|]. exact (IH D).
+Qed.
+
 Lemma hnew_ok h sz : heap_ok h -> heap_ok (fst (hnew h sz)).
 Proof.
-  intros [B C L]. unfold hnew. cbn [fst]. constructor; cbn [h_bad h_allocs h_frees h_live h_next].
+  intros [B C L ND]. unfold hnew. cbn [fst]. constructor; unfold ids in *; cbn [h_bad h_allocs h_frees h_live h_next map fst].
   - exact B.
   - unfold zlen in *. cbn [length]. lia.
   - intros b z [A|A]; [inversion A; lia|]. specialize (L _ _ A). lia.
+  - constructor; [|exact ND]. intros A. apply in_map_iff in A. destruct A as [[b z] [E A]]. cbn [fst] in E. subst.
+    specialize (L _ _ A). lia.
 Qed.
 
 Lemma hdel_ok h b z : heap_ok h -> In (b, z) (h_live h) -> heap_ok (hdel h b).
 Proof.
-  intros [B C L] I. unfold hdel. rewrite (hmem_In _ _ _ I). constructor; cbn [h_bad h_allocs h_frees h_live h_next].
+  intros [B C L ND] I. unfold hdel. rewrite (hmem_In _ _ _ I). constructor; unfold ids in *; cbn [h_bad h_allocs h_frees h_live h_next].
   - exact B.
   - rewrite hrem_length by exact (hmem_In _ _ _ I). lia.
   - intros x y A. apply hrem_In_inv in A. exact (L _ _ A).
+  - exact (hrem_nodup _ _ ND).
 Qed.
 
 Lemma hdel_live h b z : In (b, z) (h_live h) ->
@@ -217,7 +243,7 @@ Record InvT (p : prm) (k : Z) (h : heap) (s : sto) (l : list (nat * frame)) : Pr
   i_sto : sto_ok p h s;
   i_busy : match p_pol p with PMts => 0 <= k /\ k + sumw trw l = b2z (s_busy s) | _ => k = 0 end;
   i_single : single (p_pol p) = true -> (length l <= 1)%nat;
-  i_pos : 0 <= p_x p
+  i_pos : 0 <= p_x p /\ 0 < p_xal p
 }.
 
 Lemma sumw_nonneg w l : (forall f, 0 <= w f) -> 0 <= sumw w l.
@@ -292,10 +318,10 @@ Lemma zlen_cons {A} (x : A) l : zlen (x :: l) = zlen l + 1.
 Proof. unfold zlen. cbn [length]. lia. Qed.
 
 (* ---------- reusable_storage_mtsafe: the three atomic pieces ---------- *)
-Lemma mts_lost_inv p k h s l slot fid n :
+Lemma mts_lost_inv p k h s l slot fid n fsz :
   p_pol p = PMts -> InvT p k h s l -> 0 < n -> ~ In slot (keys l) ->
   let '(h1, s1, g) := mts_lost h s n in
-  InvT p k h1 s1 ((slot, mkFr fid (g_blk g) n (g_need g) (g_room g) (g_tr g)) :: l).
+  InvT p k h1 s1 ((slot, mkFr fid (g_blk g) n (g_need g) (g_room g) (g_tr g) fsz) :: l).
 Proof.
   intros EP I N K. unfold mts_lost, hnew. cbn [g_blk g_need g_room g_tr].
   destruct I as [IH IC IF IB IK IS IBZ ISG IX].
@@ -334,10 +360,10 @@ Proof.
   - exact IX.
 Qed.
 
-Lemma mts_won_inv p k h s l slot fid n :
+Lemma mts_won_inv p k h s l slot fid n fsz :
   p_pol p = PMts -> 0 <= k -> InvT p (k + 1) h s l -> 0 < n -> ~ In slot (keys l) ->
   let '(h1, s1, g) := mts_won h s n in
-  InvT p k h1 s1 ((slot, mkFr fid (g_blk g) n (g_need g) (g_room g) (g_tr g)) :: l).
+  InvT p k h1 s1 ((slot, mkFr fid (g_blk g) n (g_need g) (g_room g) (g_tr g) fsz) :: l).
 Proof.
   intros EP K0 I N K. destruct I as [IH IC IF IB IK IS IBZ ISG IX].
   rewrite EP in IBZ. pose proof (sumw_nonneg trw l trw_nonneg) as NN.
@@ -469,11 +495,23 @@ Proof.
   pose proof (Z.mod_pos_bound (n + a - 1) a A) as M. lia.
 Qed.
 
-Lemma balloc_inv p h s l slot fid n :
+Lemma align_up_ge n a : 0 < a -> n <= align_up n a.
+Proof. exact (ceil_mul n a). Qed.
+Lemma align_up_mod n a : 0 < a -> align_up n a mod a = 0.
+Proof. intros A. unfold align_up. apply Z.mod_mul. lia. Qed.
+Lemma nreq_ge p sz : 0 <= p_x p /\ 0 < p_xal p -> sz <= xoff p sz /\ xoff p sz + (if 0 <? p_x p then p_x p else 0) <= nreq p sz.
+Proof.
+  intros [X A]. unfold nreq, xoff. destruct (0 <? p_x p) eqn:G; [|lia].
+  pose proof (align_up_ge sz (p_xal p) A). pose proof (align_up_ge (align_up sz (p_xal p) + p_x p) 8 ltac:(lia)). lia.
+Qed.
+Lemma nreq_pos p sz : 0 <= p_x p /\ 0 < p_xal p -> 0 < sz -> 0 < nreq p sz.
+Proof. intros H S. pose proof (nreq_ge p sz H). destruct (0 <? p_x p); lia. Qed.
+
+Lemma balloc_inv p h s l slot fid n fsz :
   InvT p 0 h s l -> 0 < n -> ~ In slot (keys l) ->
   (single (p_pol p) = true -> l = []) -> (p_pol p = PPlc -> n <= p_a p) ->
   let '(h1, s1, g) := balloc p h s n in
-  InvT p 0 h1 s1 ((slot, mkFr fid (g_blk g) n (g_need g) (g_room g) (g_tr g)) :: l).
+  InvT p 0 h1 s1 ((slot, mkFr fid (g_blk g) n (g_need g) (g_room g) (g_tr g) fsz) :: l).
 Proof.
   intros I N K SG PL. unfold balloc. destruct (p_pol p) eqn:EP.
   - (* PDef *)
@@ -527,9 +565,9 @@ Proof.
       * exact IX.
   - (* PMts *)
     destruct (s_busy s) eqn:B.
-    + exact (mts_lost_inv p 0 h s l slot fid n EP I N K).
+    + exact (mts_lost_inv p 0 h s l slot fid n fsz EP I N K).
     + destruct (mts_claim_inv p 0 h s l EP I B) as [_ I1].
-      exact (mts_won_inv p 0 h (set_busy s true) l slot fid n EP ltac:(lia) I1 N K).
+      exact (mts_won_inv p 0 h (set_busy s true) l slot fid n fsz EP ltac:(lia) I1 N K).
   - (* PStk *)
     destruct I as [IH IC IF IB IK IS IBZ ISG IX].
     assert (OLD : forall s', s_ptr s' = s_ptr s -> s_ownc s' = S (s_ownc s) ->
@@ -586,7 +624,7 @@ Proof.
       pose proof (Z.mod_pos_bound (n + p_a p - 1) (p_a p) A0). nia. }
     assert (FIN : forall h1 s1, heap_ok h1 -> zlen (h_live h1) = 1 -> items <= s_bcap s1 -> 0 <= s_bsize s1 <= s_bcap s1 ->
                   forall b1, s_ptr s1 = Some b1 -> In (b1, s_bcap s1 * p_a p) (h_live h1) ->
-                  InvT p 0 h1 s1 [(slot, mkFr fid (optblk (s_ptr s1)) n n (s_bcap s1 * p_a p) false)]).
+                  InvT p 0 h1 s1 [(slot, mkFr fid (optblk (s_ptr s1)) n n (s_bcap s1 * p_a p) false fsz)]).
     { intros h1 s1 HK Z1 LE SZ b1 E1 V1.
       assert (n <= s_bcap s1 * p_a p) by nia.
       constructor; rewrite ?EP.
@@ -633,12 +671,12 @@ Definition RI (pol : policy) (p : prm) (c : core) : Prop :=
   (c_up c = false -> frs c = [] /\ h_live (hp c) = []).
 
 Lemma heap0_ok : heap_ok heap0.
-Proof. constructor; cbn; auto. intros b z []. Qed.
+Proof. constructor; cbn; auto; [intros b z []|constructor]. Qed.
 
 Lemma zlen_nil_inv {A} (l : list A) : zlen l = 0 -> l = [].
 Proof. destruct l; [reflexivity|]. unfold zlen. cbn [length]. lia. Qed.
 
-Lemma init_inv p : 0 <= p_x p -> 0 <= p_a p -> 0 <= p_b p -> (p_pol p = PBuf -> 0 < p_a p) ->
+Lemma init_inv p : 0 <= p_x p /\ 0 < p_xal p -> 0 <= p_a p -> 0 <= p_b p -> (p_pol p = PBuf -> 0 < p_a p) ->
   InvT p 0 (hp (init_core p)) (st (init_core p)) (frs (init_core p)) /\ c_up (init_core p) = true.
 Proof.
   intros X A B PB. unfold init_core.
@@ -693,10 +731,10 @@ Proof.
   2:{ destruct o; cbn [prm_of] in *; try exact (conj EP (conj HK (conj UP DN))).
       cbn [wf_op] in W. repeat (apply andb_prop in W; destruct W as [W ?]). apply negb_true_iff in W.
       refine (conj eq_refl (conj HK (conj _ DN))). intros U. congruence. }
-  destruct o as [x a b|slot sz|slot| |]; cbn [prm_of] in *; cbn [exec fst].
+  destruct o as [x a b xal|slot sz|slot| |]; cbn [prm_of] in *; cbn [exec fst].
   - (* Init *)
     cbn [wf_op] in W. repeat (apply andb_prop in W; destruct W as [W ?]).
-    destruct (init_inv (mkPrm pol x a b)) as [I U]; cbn [p_x p_a p_b p_pol]; try lia.
+    destruct (init_inv (mkPrm pol x a b xal)) as [I U]; cbn [p_x p_a p_b p_pol p_xal]; try lia.
     { intros E. cbn [contract p_pol] in CT. rewrite E in CT. lia. }
     refine (conj eq_refl (conj (i_heap _ _ _ _ _ I) (conj (fun _ => I) _))). intros U2. congruence.
   - (* Create *)
@@ -705,11 +743,11 @@ Proof.
     specialize (UP W). pose proof (i_pos _ _ _ _ _ UP) as X.
     assert (SGL : single (p_pol p) = true -> frs c = []).
     { intros S. cbn [contract] in CT. destruct (p_pol p); try discriminate; destruct (frs c); auto; discriminate. }
-    assert (PLC : p_pol p = PPlc -> sz + p_x p <= p_a p).
+    assert (PLC : p_pol p = PPlc -> nreq p sz <= p_a p).
     { intros E. cbn [contract] in CT. rewrite E in CT. destruct (frs c); [lia|discriminate]. }
-    pose proof (balloc_inv p (hp c) (st c) (frs c) slot (c_nfid c) (sz + p_x p) UP ltac:(lia)
+    pose proof (balloc_inv p (hp c) (st c) (frs c) slot (c_nfid c) (nreq p sz) sz UP (nreq_pos p sz X ltac:(lia))
                   (fget_None_keys _ _ G) SGL PLC) as BI.
-    unfold create, mk_frame. destruct (balloc p (hp c) (st c) (sz + p_x p)) as [[h1 s1] g].
+    unfold create, mk_frame. destruct (balloc p (hp c) (st c) (nreq p sz)) as [[h1 s1] g].
     cbn [fst hp st frs c_up]. refine (conj EP (conj (i_heap _ _ _ _ _ BI) (conj (fun _ => BI) _))). intros U2. cbn [c_up] in U2. congruence.
   - (* Finish *)
     cbn [wf_op] in W. apply andb_prop in W. destruct W as [W G].
@@ -833,199 +871,6 @@ Proof.
 Qed.
 
 (* ====================================================================================================
-   reusable_storage_mtsafe under every schedule of any number of threads *)
-Definition wonw (t : thread) : Z := match t_won t with Some _ => 1 | None => 0 end.
-Fixpoint nwon (l : list thread) : Z := match l with [] => 0 | t :: r => wonw t + nwon r end.
-Arguments nwon : simpl never.
-
-Lemma wonw_nonneg t : 0 <= wonw t. Proof. unfold wonw. destruct (t_won t); lia. Qed.
-Lemma nwon_nonneg l : 0 <= nwon l.
-Proof. induction l as [|t l IH]; unfold nwon; fold nwon; [lia|]. pose proof (wonw_nonneg t). lia. Qed.
-
-Lemma nwon_set_nth l i t t' : nth_error l i = Some t -> nwon (set_nth l i t') = nwon l - wonw t + wonw t'.
-Proof.
-  revert i. induction l as [|x l IH]; intros [|i] H; cbn [nth_error set_nth] in *; try discriminate.
-  - inversion H; subst. unfold nwon; fold nwon. lia.
-  - unfold nwon; fold nwon. rewrite (IH _ H). lia.
-Qed.
-
-Lemma nwon_ge l i t : nth_error l i = Some t -> wonw t <= nwon l.
-Proof.
-  revert i. induction l as [|x l IH]; intros [|i] H; cbn [nth_error] in *; try discriminate.
-  - inversion H; subst. unfold nwon; fold nwon. pose proof (nwon_nonneg l). lia.
-  - unfold nwon; fold nwon. specialize (IH _ H). pose proof (wonw_nonneg x). lia.
-Qed.
-
-Definition act_pos (a : act) : Prop := match a with ACreate sz => 0 < sz | AFin _ => True end.
-Definition thr_pos (t : thread) : Prop :=
-  Forall act_pos (t_prog t) /\ match t_won t with Some sz => 0 < sz | None => True end.
-
-Record CInv (s : cst) : Prop := {
-  ci_inv : InvT pm (nwon (c_thr s)) (hp (c_core s)) (st (c_core s)) (frs (c_core s));
-  ci_keys : forall k, In k (keys (frs (c_core s))) -> (k < c_nfid (c_core s))%nat;
-  ci_pos : Forall thr_pos (c_thr s)
-}.
-
-Lemma Forall_set_nth {A} (P : A -> Prop) l i x : Forall P l -> P x -> Forall P (set_nth l i x).
-Proof.
-  intros H. revert i. induction H as [|y l Hy Hl IH]; intros [|i] Px; cbn [set_nth]; constructor; auto.
-Qed.
-
-Lemma Forall_nth_error {A} (P : A -> Prop) l i x : Forall P l -> nth_error l i = Some x -> P x.
-Proof. intros H E. rewrite Forall_forall in H. apply H. exact (nth_error_In _ _ E). Qed.
-
-Lemma sanitize_pos : forall l live, Forall act_pos (sanitize live l).
-Proof.
-  induction l as [|a l IH]; intros live; cbn [sanitize].
-  - induction live; cbn [repeat]; constructor; cbn; auto.
-  - destruct a as [sz|b].
-    + destruct (0 <? sz) eqn:G; [constructor; [cbn; lia|apply IH]|apply IH].
-    + destruct live; [apply IH|constructor; [exact Logic.I|apply IH]].
-Qed.
-
-Lemma cinit_CInv ops : CInv (cinit ops).
-Proof.
-  unfold cinit. assert (W : forall l, nwon (flat_map decode_thread l) = 0 /\ Forall thr_pos (flat_map decode_thread l)).
-  { induction l as [|o l [IH1 IH2]]; cbn [flat_map]; [split; [reflexivity|constructor]|].
-    unfold decode_thread at 1 3. destruct o as [|z r]; [split; assumption|].
-    destruct (Z.eq_dec z 2) as [->|N].
-    - cbn [app]. split.
-      + unfold nwon; fold nwon. unfold wonw. cbn [t_won]. lia.
-      + constructor; [|exact IH2]. split; cbn [t_prog t_won]; [apply sanitize_pos|exact Logic.I].
-    - assert ((match z with 2 => [mkTh (sanitize 0 (decode_prog r)) None [] 0 []] | _ => [] end) = []) as ->.
-      { destruct z as [|q|q]; try reflexivity. repeat (destruct q as [q|q|]; try reflexivity). congruence. }
-      cbn [app]. split; assumption. }
-  destruct (W ops) as [W1 W2]. constructor; cbn [c_core c_thr].
-  - rewrite W1. destruct (init_inv pm) as [I _]; cbn; try lia; [discriminate|exact I].
-  - cbn. intros k [].
-  - exact W2.
-Qed.
-
-Lemma tstep_CInv s i : CInv s -> CInv (fst (tstep s i)).
-Proof.
-  intros [I K P]. unfold tstep. destruct (nth_error (c_thr s) i) as [t|] eqn:ET; [|cbn [fst]; constructor; assumption].
-  pose proof (Forall_nth_error _ _ _ _ P ET) as [PP PW].
-  set (c := c_core s) in *.
-  assert (FR : ~ In (c_nfid c) (keys (frs c))) by (intros A; specialize (K _ A); lia).
-  destruct (t_won t) as [sz|] eqn:EW.
-  - (* busy_g: the winner takes or regrows the shared block *)
-    pose proof (nwon_ge _ _ _ ET) as GE. unfold wonw in GE. rewrite EW in GE.
-    assert (I1 : InvT pm ((nwon (c_thr s) - 1) + 1) (hp c) (st c) (frs c)) by (replace (nwon (c_thr s) - 1 + 1) with (nwon (c_thr s)) by lia; exact I).
-    pose proof (mts_won_inv pm (nwon (c_thr s) - 1) (hp c) (st c) (frs c) (c_nfid c) (c_nfid c) sz eq_refl ltac:(lia) I1 PW FR) as W.
-    unfold mk_frame. destruct (mts_won (hp c) (st c) sz) as [[h1 s1] g]. cbn [fst upd p_x pm].
-    constructor; unfold upd; cbn [c_core c_thr hp st frs c_nfid].
-    + rewrite (nwon_set_nth _ _ _ _ ET). unfold wonw. rewrite EW. cbn [t_won]. rewrite ?Z.add_0_r.
-      match goal with |- InvT _ ?k _ _ _ => replace k with (nwon (c_thr s) - 1) by lia end. exact W.
-    + cbn [keys map fst]. intros k [<-|A]; [lia|]. specialize (K _ A). lia.
-    + apply Forall_set_nth; [exact P|]. split; cbn [t_prog t_won]; auto.
-  - destruct (t_prog t) as [|[sz|nw] r] eqn:EPg; [cbn [fst]; constructor; assumption| |].
-    + (* busy_x *)
-      inversion PP as [|? ? PA PR]; subst. cbn [act_pos] in PA.
-      destruct (s_busy (st c)) eqn:B.
-      * pose proof (mts_lost_inv pm (nwon (c_thr s)) (hp c) (st c) (frs c) (c_nfid c) (c_nfid c) sz eq_refl I PA FR) as W.
-        unfold mk_frame. destruct (mts_lost (hp c) (st c) sz) as [[h1 s1] g]. cbn [fst upd p_x pm].
-        constructor; unfold upd; cbn [c_core c_thr hp st frs c_nfid].
-        -- rewrite (nwon_set_nth _ _ _ _ ET). unfold wonw. rewrite EW. cbn [t_won]. rewrite ?Z.add_0_r.
-           match goal with |- InvT _ ?k _ _ _ => replace k with (nwon (c_thr s)) by lia end. exact W.
-        -- cbn [keys map fst]. intros k [<-|A]; [lia|]. specialize (K _ A). lia.
-        -- apply Forall_set_nth; [exact P|]. split; cbn [t_prog t_won]; auto.
-      * destruct (mts_claim_inv pm _ _ _ _ eq_refl I B) as [Z0 I1].
-        cbn [fst upd]. constructor; unfold upd; cbn [c_core c_thr with_busy hp st frs c_nfid].
-        -- rewrite (nwon_set_nth _ _ _ _ ET). unfold wonw. rewrite EW. cbn [t_won].
-           match goal with |- InvT _ ?k _ _ _ => replace k with (1) by lia end. exact I1.
-        -- exact K.
-        -- apply Forall_set_nth; [exact P|]. split; cbn [t_prog t_won]; auto.
-    + (* busy_s *)
-      inversion PP as [|? ? PA PR]; subst.
-      assert (SKIP : CInv (upd s c i (mkTh r None (t_own t) (S (t_done t)) (t_res t ++ [[Z.of_nat i; Z.of_nat (t_done t); 0]])))).
-      { constructor; unfold upd; cbn [c_core c_thr].
-        - rewrite (nwon_set_nth _ _ _ _ ET). unfold wonw. rewrite EW. cbn [t_won].
-          match goal with |- InvT _ ?k _ _ _ => replace k with (nwon (c_thr s)) by lia end. exact I.
-        - exact K.
-        - apply Forall_set_nth; [exact P|]. split; cbn [t_prog t_won]; auto. }
-      destruct (pick nw (t_own t)) as [[slot rest]|]; [|exact SKIP].
-      destruct (fget (frs c) slot) as [f|] eqn:GF; [|exact SKIP].
-      pose proof (finish_inv pm _ _ _ _ slot f I GF) as W. unfold finish.
-      destruct (bdealloc pm (hp c) (st c) (f_blk f) (f_tr f)) as [h1 s1]. cbn [fst upd].
-      constructor; unfold upd; cbn [c_core c_thr hp st frs c_nfid].
-      * rewrite (nwon_set_nth _ _ _ _ ET). unfold wonw. rewrite EW. cbn [t_won].
-        match goal with |- InvT _ ?k _ _ _ => replace k with (nwon (c_thr s)) by lia end. exact W.
-      * intros k A. apply keys_fdel_In in A. apply K, A.
-      * apply Forall_set_nth; [exact P|]. split; cbn [t_prog t_won]; auto.
-Qed.
-
-Lemma run_sched_CInv : forall fuel s sched tr, CInv s -> CInv (fst (run_sched fuel s sched tr)).
-Proof.
-  induction fuel as [|fuel IH]; intros s sched tr C; cbn [run_sched]; [exact C|].
-  destruct (all_enabled s) as [|e en]; [exact C|].
-  set (i := nth _ _ _). pose proof (tstep_CInv s i C) as C1.
-  destruct (tstep s i) as [s1 pt]. apply IH. exact C1.
-Qed.
-
-(* every state reachable by thread steps in any order *)
-Inductive mt_reach (ops : list (list Z)) : cst -> Prop :=
-| mr_init : mt_reach ops (cinit ops)
-| mr_step s i : mt_reach ops s -> mt_reach ops (fst (tstep s i)).
-
-Lemma reach_CInv ops s : mt_reach ops s -> CInv s.
-Proof. induction 1; [apply cinit_CInv|apply tstep_CInv; assumption]. Qed.
-
-Lemma mt_exclusive ops s i j fi fj : mt_reach ops s ->
-  fget (frs (c_core s)) i = Some fi -> fget (frs (c_core s)) j = Some fj -> i <> j -> f_blk fi <> f_blk fj.
-Proof.
-  intros R. destruct (reach_CInv _ _ R) as [I _ _]. exact (blocks_distinct _ _ _ _ _ (i_blocks _ _ _ _ _ I)).
-Qed.
-
-(* the shared block: at most one holder (a live frame in it, or a thread that won _busy and has not allocated yet) *)
-Lemma mt_one_holder ops s : mt_reach ops s ->
-  nwon (c_thr s) + sumw trw (frs (c_core s)) = b2z (s_busy (st (c_core s))) /\
-  forall i f, In (i, f) (frs (c_core s)) ->
-    if f_tr f then f_blk f = optblk (s_ptr (st (c_core s)))
-    else exists b, f_blk f = BHeap b /\ s_ptr (st (c_core s)) <> Some b.
-Proof.
-  intros R. destruct (reach_CInv _ _ R) as [I _ _]. split.
-  - exact (proj2 (i_busy _ _ _ _ _ I)).
-  - intros i f A. exact (proj2 (proj2 (proj2 (proj2 (i_frames _ _ _ _ _ I _ _ A))))).
-Qed.
-
-Lemma mt_valid_sized ops s i f : mt_reach ops s -> In (i, f) (frs (c_core s)) ->
-  0 < f_n f /\ f_n f + ptr_sz <= f_room f /\ exists b, f_blk f = BHeap b /\ In (b, f_room f) (h_live (hp (c_core s))).
-Proof.
-  intros R A. destruct (reach_CInv _ _ R) as [I _ _].
-  destruct (i_frames _ _ _ _ _ I _ _ A) as (F1 & F2 & F3 & V & RR). cbn [pm p_pol trailer] in *.
-  split; [exact F1|]. split; [lia|].
-  destruct (f_blk f) as [|b|j]; try contradiction. exists b. auto.
-Qed.
-
-Lemma mt_freed_once ops s : mt_reach ops s ->
-  let h := hp (c_core s) in
-  h_bad h = 0 /\ h_allocs h - h_frees h = zlen (h_live h) /\
-  zlen (h_live h) = nsown PMts (st (c_core s)) + sumw (owns PMts) (frs (c_core s)) /\
-  (frs (c_core s) = [] -> let h1 := hp (destroy pm (c_core s)) in h_live h1 = [] /\ h_allocs h1 = h_frees h1 /\ h_bad h1 = 0).
-Proof.
-  intros R h. destruct (reach_CInv _ _ R) as [I _ _]. pose proof (i_heap _ _ _ _ _ I) as HK. fold h in HK.
-  pose proof (i_cnt _ _ _ _ _ I) as C. cbn [pm p_pol] in C. fold h in C.
-  refine (conj (hk_bad _ HK) (conj (hk_cnt _ HK) (conj C _))).
-  intros E. rewrite E, sumw_nil in C. unfold destroy. cbn [pm p_pol hp]. fold h.
-  pose proof (i_sto _ _ _ _ _ I) as S. unfold sto_ok in S. cbn [pm p_pol] in S. destruct S as [_ S].
-  destruct (destroy_heap h (s_ptr (st (c_core s))) HK) as [D1 D2].
-  - cbn [nsown] in C. lia.
-  - intros b EB. rewrite EB in S. eexists. exact S.
-  - split; [exact D2|]. pose proof (hk_cnt _ D1) as C1. rewrite D2 in C1. unfold zlen in C1. cbn [length] in C1.
-    split; [lia|exact (hk_bad _ D1)].
-Qed.
-
-Lemma mt_final_reach ops : mt_reach ops (fst (mt_final ops)).
-Proof.
-  unfold mt_final. generalize (2 * sumlen (c_thr (cinit ops)) + 2)%nat (flat_map decode_sched ops) (@nil (nat * Z)).
-  intros fuel. assert (G : forall s, mt_reach ops s -> forall sched tr, mt_reach ops (fst (run_sched fuel s sched tr))).
-  { induction fuel as [|fuel IH]; intros s R sched tr; cbn [run_sched]; [exact R|].
-    destruct (all_enabled s) as [|e en]; [exact R|]. set (i := nth _ _ _).
-    pose proof (mr_step ops s i R) as R1. destruct (tstep s i) as [s1 pt]. apply IH. exact R1. }
-  apply G. constructor.
-Qed.
-
-(* ====================================================================================================
    warm-up: what the reusing policies have learned *)
 Definition WIs (p : prm) (s : sto) (cm : Z) : Prop :=
   0 <= cm /\
@@ -1100,9 +945,9 @@ Proof.
   intros (EP & HK & UP & DN) W. cbn zeta. unfold gstep.
   destruct (wf_op c o) eqn:WF; cbn [andb]; [|exact W].
   destruct (contract (prm_of pol p o) c o) eqn:CT; cbn [fst].
-  { destruct o as [x a b|slot sz|slot| |]; cbn [prm_of exec fst] in *.
+  { destruct o as [x a b xal|slot sz|slot| |]; cbn [prm_of exec fst] in *.
     - intros _. unfold init_core. cbn [p_pol p_b p_a].
-      assert (B : forall s, s_cap s = 0 -> WIs (mkPrm pol x a b) s 0).
+      assert (B : forall s, s_cap s = 0 -> WIs (mkPrm pol x a b xal) s 0).
       { intros s E. unfold WIs. split; [lia|]. cbn [p_pol]. destruct pol; auto; try lia. }
       destruct pol; try (apply B; reflexivity).
       destruct (0 <? b); [unfold hnew; cbn [st c_max]|]; apply B; reflexivity.
@@ -1110,8 +955,8 @@ Proof.
       specialize (UP WF). specialize (W WF). intros _.
       assert (PB : p_pol p = PBuf -> 0 < p_a p).
       { intros E. pose proof (i_sto _ _ _ _ _ UP) as S. unfold sto_ok in S. rewrite E in S. tauto. }
-      pose proof (balloc_WI p (hp c) (st c) (sz + p_x p) (c_max c) W ltac:(pose proof (i_pos _ _ _ _ _ UP); lia) PB) as BW.
-      unfold create, mk_frame. destruct (balloc p (hp c) (st c) (sz + p_x p)) as [[h1 s1] g]. cbn [fst snd st c_max] in *.
+      pose proof (balloc_WI p (hp c) (st c) (nreq p sz) (c_max c) W (nreq_pos p sz (i_pos _ _ _ _ _ UP) ltac:(lia)) PB) as BW.
+      unfold create, mk_frame. destruct (balloc p (hp c) (st c) (nreq p sz)) as [[h1 s1] g]. cbn [fst snd st c_max] in *.
       exact BW.
     - cbn [wf_op] in WF. apply andb_prop in WF. destruct WF as [WF G].
       destruct (fget (frs c) slot) as [f|]; [|discriminate]. specialize (W WF). intros _.
@@ -1147,7 +992,7 @@ Qed.
 Lemma warm_no_alloc pol l slot sz : contract_ok pol l = true ->
   let c := final_u pol l in let p := final_p pol l in
   wf_op c (OCreate slot sz) = true -> contract p c (OCreate slot sz) = true -> pol <> PDef ->
-  sz + p_x p <= c_max c -> (pol = PMts -> s_busy (st c) = false) ->
+  nreq p sz <= c_max c -> (pol = PMts -> s_busy (st c) = false) ->
   hp (fst (create p c slot sz)) = hp c.
 Proof.
   intros H c p WF CT ND LE NB. destruct (final_RW pol l H) as [(EP & HK & UP & DN) W]. fold c p in EP, UP, W.
@@ -1156,18 +1001,18 @@ Proof.
   assert (PB : p_pol p = PBuf -> 0 < p_a p).
   { intros E. pose proof (i_sto _ _ _ _ _ UP) as S. unfold sto_ok in S. rewrite E in S. tauto. }
   pose proof (i_pos _ _ _ _ _ UP) as X.
-  pose proof (balloc_warm p (hp c) (st c) (sz + p_x p) (c_max c) W ltac:(lia) LE PB ltac:(rewrite EP; exact NB) ltac:(rewrite EP; exact ND)) as BW.
-  unfold create, mk_frame. destruct (balloc p (hp c) (st c) (sz + p_x p)) as [[h1 s1] g]. cbn [fst hp] in *. exact BW.
+  pose proof (balloc_warm p (hp c) (st c) (nreq p sz) (c_max c) W (nreq_pos p sz X ltac:(lia)) LE PB ltac:(rewrite EP; exact NB) ltac:(rewrite EP; exact ND)) as BW.
+  unfold create, mk_frame. destruct (balloc p (hp c) (st c) (nreq p sz)) as [[h1 s1] g]. cbn [fst hp] in *. exact BW.
 Qed.
 
 (* ... and every creation served by the policy's block is learned *)
 Lemma learned pol l slot sz :
   let c := final_u pol l in let p := final_p pol l in
-  p_pol p = pol -> (pol = PMts -> s_busy (st c) = false) -> sz + p_x p <= c_max (fst (create p c slot sz)).
+  p_pol p = pol -> (pol = PMts -> s_busy (st c) = false) -> nreq p sz <= c_max (fst (create p c slot sz)).
 Proof.
   intros c p EP NB.
-  pose proof (balloc_learned p (hp c) (st c) (sz + p_x p) (c_max c) ltac:(rewrite EP; exact NB)) as BL.
-  unfold create, mk_frame. destruct (balloc p (hp c) (st c) (sz + p_x p)) as [[h1 s1] g]. cbn [fst snd c_max] in *. exact BL.
+  pose proof (balloc_learned p (hp c) (st c) (nreq p sz) (c_max c) ltac:(rewrite EP; exact NB)) as BL.
+  unfold create, mk_frame. destruct (balloc p (hp c) (st c) (nreq p sz)) as [[h1 s1] g]. cbn [fst snd c_max] in *. exact BL.
 Qed.
 
 (* ... and nothing is forgotten while the storage lives *)
@@ -1175,9 +1020,9 @@ Lemma cmax_mono p c o : c_up c = true -> c_max c <= c_max (fst (gstep p c o)).
 Proof.
   intros U. unfold gstep. destruct (wf_op c o && contract p c o) eqn:G; [|cbn [fst]; lia].
   apply andb_prop in G. destruct G as [WF _].
-  destruct o as [x a b|slot sz|slot| |]; cbn [exec fst].
+  destruct o as [x a b xal|slot sz|slot| |]; cbn [exec fst].
   - cbn [wf_op] in WF. rewrite U in WF. discriminate.
-  - unfold create, mk_frame. destruct (balloc p (hp c) (st c) (sz + p_x p)) as [[h1 s1] g]. cbn [fst c_max].
+  - unfold create, mk_frame. destruct (balloc p (hp c) (st c) (nreq p sz)) as [[h1 s1] g]. cbn [fst c_max].
     unfold learn. destruct (p_pol p); try lia. destruct (g_tr g); lia.
   - destruct (fget (frs c) slot) as [f|]; cbn [fst]; [|lia].
     unfold finish. destruct (bdealloc p (hp c) (st c) (f_blk f) (f_tr f)). cbn [c_max]. lia.
@@ -1279,14 +1124,14 @@ Proof.
       cbn [wf_op] in WF. repeat (apply andb_prop in WF; destruct WF as [WF ?]).
       match goal with H : (c_nfid c =? 0)%nat = true |- _ => apply Nat.eqb_eq in H; exact (LI_nfid0 _ _ c H L) end. }
   destruct L as [LT ND KD LG].
-  destruct o as [x a b|slot sz|slot| |]; cbn [prm_of exec fst] in *.
+  destruct o as [x a b xal|slot sz|slot| |]; cbn [prm_of exec fst] in *.
   - assert (B : forall h s, LI x (mkCore h s [] 0 0 true [])).
     { intros h s. constructor; cbn [frs c_nfid c_log]; try constructor. intros i f []. }
     unfold init_core. cbn [p_pol p_b p_a p_x].
     destruct pol; try apply B. destruct (0 <? b); [unfold hnew|]; apply B.
   - cbn [wf_op] in WF. repeat (apply andb_prop in WF; destruct WF as [WF ?]).
     destruct (fget (frs c) slot) eqn:G; [discriminate|].
-    unfold create, mk_frame. destruct (balloc p (hp c) (st c) (sz + p_x p)) as [[h1 s1] g]. cbn [fst].
+    unfold create, mk_frame. destruct (balloc p (hp c) (st c) (nreq p sz)) as [[h1 s1] g]. cbn [fst].
     constructor; cbn [frs c_nfid c_log].
     + intros i f [A|A]; [inversion A; subst; cbn [f_id]; lia|]. specialize (LT _ _ A). lia.
     + cbn [fids map snd f_id]. constructor; [|exact ND].
@@ -1339,4 +1184,72 @@ Lemma extra_object pol l fid : contract_ok pol l = true ->
 Proof.
   intros H c. unfold c, final_p, final_u, run_u. unfold contract_ok in H. rewrite (contract_ok_same pol l _ _ H).
   apply (li_log _ _ (run_LI pol l (prm0 pol) core0 ltac:(constructor; cbn; try constructor; intros ? ? []))).
+Qed.
+
+(* ====================================================================================================
+   placement of the extra object and of the base policy's trailer inside the block *)
+Definition NI (p : prm) (c : core) : Prop :=
+  forall i f, In (i, f) (frs c) -> f_n f = nreq p (f_sz f) /\ 0 < f_sz f.
+
+Lemma gstep_NI pol p c o : RI pol p c -> NI p c ->
+  let p1 := if wf_op c o then prm_of pol p o else p in NI p1 (fst (gstep p1 c o)).
+Proof.
+  intros (EP & HK & UP & DN) N. cbn zeta. unfold gstep.
+  destruct (wf_op c o) eqn:WF; cbn [andb]; [|exact N].
+  assert (INIT : forall x a b xal, o = OInit x a b xal -> frs c = []).
+  { intros x a b xal ->. cbn [wf_op] in WF. repeat (apply andb_prop in WF; destruct WF as [WF ?]). apply negb_true_iff in WF.
+    exact (proj1 (DN WF)). }
+  destruct (contract (prm_of pol p o) c o) eqn:CT; cbn [fst].
+  2:{ destruct o; cbn [prm_of] in *; try exact N. intros i f A. rewrite (INIT _ _ _ _ eq_refl) in A. contradiction. }
+  destruct o as [x a b xal|slot sz|slot| |]; cbn [prm_of exec fst] in *.
+  - intros i f A. unfold init_core in A. cbn [p_pol p_b] in A.
+    destruct pol; cbn [frs] in A; try contradiction. destruct (0 <? b); [unfold hnew in A|]; cbn [frs] in A; contradiction.
+  - cbn [wf_op] in WF. repeat (apply andb_prop in WF; destruct WF as [WF ?]).
+    unfold create, mk_frame. destruct (balloc p (hp c) (st c) (nreq p sz)) as [[h1 s1] g]. cbn [fst].
+    intros i f [A|A]; [|exact (N _ _ A)]. inversion A; subst. cbn [f_n f_sz]. split; [reflexivity|lia].
+  - destruct (fget (frs c) slot) as [f|]; cbn [fst]; [|exact N].
+    unfold finish. destruct (bdealloc p (hp c) (st c) (f_blk f) (f_tr f)) as [h1 s1].
+    intros i g A. cbn [frs] in A. apply In_fdel in A. exact (N _ _ (proj1 A)).
+  - unfold destroy. exact N.
+  - discriminate.
+Qed.
+
+Lemma run_RN pol : forall l p c, RI pol p c -> NI p c ->
+  RI pol (fst (snd (run_with gstep pol p c l))) (snd (snd (run_with gstep pol p c l))) /\
+  NI (fst (snd (run_with gstep pol p c l))) (snd (snd (run_with gstep pol p c l))).
+Proof.
+  induction l as [|o l IH]; intros p c R N; cbn [run_with]; [split; assumption|].
+  pose proof (gstep_RI pol p c o R) as R1. pose proof (gstep_NI pol p c o R N) as N1. cbn zeta in R1, N1.
+  destruct (gstep (if wf_op c o then prm_of pol p o else p) c o) as [c1 ob] eqn:E. cbn [fst] in R1, N1.
+  specialize (IH _ _ R1 N1).
+  destruct (run_with gstep pol (if wf_op c o then prm_of pol p o else p) c1 l) as [obs r]. exact IH.
+Qed.
+
+(* C19 bytes inside the block.  A live frame of compiler size sz occupies [0, sz) of its block; the extra object (size x,
+   alignment xal) occupies [xoff, xoff + x) with sz <= xoff and xoff a multiple of xal; the base policy was asked for n bytes
+   with xoff + x <= n, n a multiple of 8 (so the owner pointer / flag byte it writes at offset n is aligned), and
+   n + trailer fits into the room behind the frame.  Blocks start at an address aligned for operator new / alloca (16). *)
+Lemma extra_placed pol l i f : contract_ok pol l = true -> fget (frs (final_u pol l)) i = Some f ->
+  let p := final_p pol l in
+  let sz := f_sz f in let n := f_n f in
+  0 < sz /\ sz <= xoff p sz /\ n + trailer pol <= f_room f /\
+  (0 < p_x p -> xoff p sz mod p_xal p = 0 /\ xoff p sz + p_x p <= n /\ n mod 8 = 0) /\
+  (p_x p = 0 -> xoff p sz = sz /\ n = sz).
+Proof.
+  intros H G p sz n.
+  assert (RN : RI pol p (final_u pol l) /\ NI p (final_u pol l)).
+  { unfold p, final_p, final_u, run_u. unfold contract_ok in H. rewrite (contract_ok_same pol l _ _ H).
+    apply run_RN; [apply core0_RI|intros ? ? []]. }
+  destruct RN as [(EP & HK & UP & DN) N].
+  destruct (c_up (final_u pol l)) eqn:U; [|destruct (DN eq_refl) as [E _]; rewrite E in G; discriminate].
+  pose proof (fget_In _ _ _ G) as GI. specialize (UP eq_refl).
+  destruct (N _ _ GI) as [NE SP]. pose proof (i_pos _ _ _ _ _ UP) as [X XA].
+  destruct (i_frames _ _ _ _ _ UP _ _ GI) as (F1 & F2 & F3 & _). rewrite EP in F2.
+  pose proof (nreq_ge p sz (conj X XA)) as [G1 G2].
+  refine (conj SP (conj G1 (conj _ (conj _ _)))).
+  - unfold n. lia.
+  - intros PX. unfold n, sz. rewrite NE. fold sz. unfold nreq, xoff in *.
+    assert (0 <? p_x p = true) as E by lia. rewrite E in *.
+    refine (conj (align_up_mod _ _ XA) (conj G2 (align_up_mod _ 8 ltac:(lia)))).
+  - intros PX. unfold n, sz. rewrite NE. fold sz. unfold nreq, xoff. rewrite PX. cbn. auto.
 Qed.
